@@ -83,11 +83,16 @@ def rule(v):
 
 
 def balanced(c):
-    """brace-balanced in the dialect (escaped braces are literals); also reports bare top-level quotes."""
+    """brace-balanced in the dialect (a brace or quote after an odd run of backslashes is a literal); also reports bare top-level quotes."""
     depth = 0
     bare_quote = False
+    run = 0                      # length of the backslash run directly in front of ch (escapes are read pairwise)
     for i, ch in enumerate(c):
-        if i > 0 and c[i - 1] == "\\":
+        if ch == "\\":
+            run += 1
+            continue
+        escaped, run = run % 2 == 1, 0
+        if escaped:
             continue
         if ch == "{":
             depth += 1
